@@ -168,7 +168,7 @@ seq(prop="C13", lean_targets=["TransportVerif.Props.C13"], pkg="vnet", run="^Tes
          "4% fill 5000-5999. non-trivial = static address inside the automatic range, automatic assignment skipping a taken address, exhaustion, a bind conflict, "
          "an ephemeral search skipping used ports, two IPs on one port, a probe delivered; distinct = hash of the ops text",
     design_ref="DESIGN.md 7.13", technique="Lean 4 proof: invariants of the address table and the socket table by induction over operation histories, bind success as an iff; differential correspondence model vs. Go",
-    level_text="PENDING", level_note="PENDING",
+    level_text="Router (Props/C13.lean): auto_never_taken (an automatically assigned address is never held already and lies in the subnet, from any router state), assigned_in_subnet, no_address_twice (along any history of static and automatic attachments in any order and number in which the user supplies no address already held, all addresses handed out are pairwise distinct), exhaustion_is_real (exhaustion is reported only when every pool address .1-.254 is held or outside the subnet). Host: open_sockets_never_conflict (reachable states), bind_succeeds_iff (explicit port: success iff the IP is the host's or the wildcard and no open socket covers the address; the open set then grows by exactly that socket, as a multiset), ephemeral_in_range_and_free (port 0, for every random offset: the chosen port is in 5000-5999 and free; failure iff none is free), foreign_ip_refused, close_frees, find_returns_the_covering_socket. Models tied to Router.AddNet and Net.ListenUDP/ListenPacket/DialUDP/Close/onInboundChunk by differential runs (answers; lastID, nics, portMap white-box).", level_note="Trusted: Lean kernel + standard axioms; reading of C13 in Spec/Addressing.lean. Two statements were false as first written and are kept as refuted `_statement` definitions: the open-socket list is equal only up to permutation (portMap re-inserts a port's entry at the end), and a wildcard bind needs the host to have at least one IPv4 address (always true for a vnet host: lo0). The draw of assignPort is scripted by reseeding math/rand. What happens when the user supplies the same static address twice is not constrained (the property says so).",
     trusted=LEAN_TB + ["hand-written Lean models Model/Addressing.lean (router assignment; host socket table) validated against Router.AddNet and Net.ListenUDP/ListenPacket/DialUDP/Close/onInboundChunk (answers; lastID, nics, portMap white-box)",
                        "reading of C13 in Spec/Addressing.lean"],
     assumptions=["static addresses supplied by the user are pairwise distinct (the property's quantifier)", "IPv4 only"])
@@ -180,7 +180,7 @@ seq(prop="C09", lean_targets=["TransportVerif.Props.C09"], pkg="deadline", run="
          "unexported timer field, and callbacks executed later (up to 8 outstanding; thorough: 3% of the cases up to 300). non-trivial = a callback runs after a later Set "
          "(stale), a Set happens with callbacks outstanding, after expiry, or re-arms a live timer; distinct = hash of the ops text",
     design_ref="DESIGN.md 7.9", technique="Lean 4 proof: safety invariant of the state/pending/done bookkeeping over all interleavings of Set, expiry dispatch and delayed callbacks; quiescence lemma; differential correspondence with a scripted timer",
-    level_text="PENDING", level_note="PENDING",
+    level_text="Theorem judged09 (Props/C09.lean): for EVERY history of Set(zero|past|future), clock advances, timer expiries dispatched by the runtime and callbacks that run arbitrarily late — also after further Set calls — with fewer than 255 callbacks outstanding, every step satisfies C09's judgement: Done is never closed unless the most recent Set gave a non-zero time that has passed (so never by a superseded timer), Err agrees with Done, Deadline reports the last Set, whenever nothing is in flight Done is closed exactly when that time has passed, a Set after expiry installs a different unsignalled channel, close is never applied to a closed channel. pending_wrap_witness documents the excluded point (256 outstanding callbacks wrap the uint8 and a stale callback signals early) on the model. The model is tied to deadline.go by a scripted timer placed in the unexported timer field; Done/Err/Deadline/channel identity and state/pending are compared after every step.", level_note="Trusted: Lean kernel + standard axioms; time.AfterFunc semantics as modelled (Stop reports whether it prevented the expiry; an expired timer's callback may run arbitrarily late); the bound of 255 outstanding callbacks (the property bounds it by K). Real-clock behaviour of the runtime timer itself is not exercised by this check (C10 uses real and virtual time).",
     trusted=LEAN_TB + ["hand-written Lean model Model/Deadline.lean validated against deadline.Deadline with a scripted timer in the unexported field: Done/Err/Deadline and channel identity (L1), state/pending/armed/outstanding (L2)",
                        "time.AfterFunc semantics as modelled (Stop reports whether it prevented the expiry; Reset re-arms; an expired timer's callback may run arbitrarily late)"],
     assumptions=["fewer than 256 callbacks outstanding at once (pending is a uint8); the theorem states this bound explicitly"])
